@@ -88,6 +88,9 @@ class TwoHandleSpec(Spec):
                 continue        # a deletion of this key raised half-way: it may or may not exist
             if raw.object_bytes(k) != content:
                 probs.append(('manual-recovery', f'acknowledged object {k[:10]} can no longer be recovered from disk'))
+        for k in world.deleted_ok - world.model.present() - world.uncertain:
+            if raw.object_bytes(k) is not None:
+                probs.append(('deleted-still-present', f'object {k[:10]} whose deletion returned normally is still stored'))
         return probs
 
 
